@@ -110,6 +110,24 @@ fn scan(t: &[ExecutedState], lo: usize, hi: usize, depth: usize, ctx: &mut Vec<c
                 if end > hi {
                     return Err(format!("fold at {} covers {} entries and exceeds its enclosing range [{}, {})", i, total, lo, hi));
                 }
+                // every range, empty or not, lies inside the fold's region (an empty range keeps
+                // the position where its entries would be): nested entries stay inside the parent
+                for (k, e) in f.lore.iter().enumerate() {
+                    for (which, d) in [("before", &e.subtraces_desc[0]), ("after", &e.subtraces_desc[1])] {
+                        let b = usize::from(d.begin_pos);
+                        let len = d.subtrace_len as usize;
+                        if b < i + 1 || b.checked_add(len).map(|x| x > end).unwrap_or(true) {
+                            return Err(format!(
+                                "fold at {}: {} range [{}, +{}) of iteration {} is outside the fold's region [{}, {})",
+                                i, which, b, len, k, i + 1, end
+                            ));
+                        }
+                    }
+                }
+                // iterations of one generation are nested (before_1 .. before_n after_n .. after_1):
+                // reading the lore in order, every `before` range starts where the previous range
+                // of the chain ended; the `after` ranges close in reverse order
+                chain_check(i, &f.lore)?;
                 intervals.sort();
                 let mut pos = i + 1;
                 for (b, len) in &intervals {
@@ -143,3 +161,41 @@ fn scan(t: &[ExecutedState], lo: usize, hi: usize, depth: usize, ctx: &mut Vec<c
     }
     Ok(())
 }
+
+/// The ranges of a fold form a bracket structure: iterations over values of one generation
+/// are nested (before_1 .. before_n after_n .. after_1), generations follow one another.
+/// Walking the lore in order with a stack of open iterations: the innermost open iteration is
+/// closed whenever its `after` range starts at the current position (its begin position is a
+/// fixed number, so not closing it now could only be consistent if all later ranges were empty,
+/// in which case the order does not matter); then the next
+/// `before` range must start at the current position.  At the end all iterations close.
+fn chain_check(fold_pos: usize, lore: &[FoldSubTraceLore]) -> Result<(), String> {
+    let mut pos = fold_pos + 1;
+    let mut open: Vec<usize> = vec![];
+    for (k, e) in lore.iter().enumerate() {
+        let bef = &e.subtraces_desc[0];
+        let b = usize::from(bef.begin_pos);
+        while let Some(&j) = open.last() {
+            let a = &lore[j].subtraces_desc[1];
+            if usize::from(a.begin_pos) != pos {
+                break;
+            }
+            pos += a.subtrace_len as usize;
+            open.pop();
+        }
+        if b != pos {
+            return Err(format!("fold at {}: before range of iteration {} starts at {} but the previous ranges end at {}", fold_pos, k, b, pos));
+        }
+        pos += bef.subtrace_len as usize;
+        open.push(k);
+    }
+    while let Some(j) = open.pop() {
+        let a = &lore[j].subtraces_desc[1];
+        if usize::from(a.begin_pos) != pos {
+            return Err(format!("fold at {}: after range of iteration {} starts at {} but the previous ranges end at {}", fold_pos, j, usize::from(a.begin_pos), pos));
+        }
+        pos += a.subtrace_len as usize;
+    }
+    Ok(())
+}
+
